@@ -460,6 +460,8 @@ class Model:
             return self.ops.external(callee.name, pos, kw, node)
         if isinstance(callee, tuple) and callee and callee[0] == "attr" and isinstance(callee[1], tuple) and callee[1] and callee[1][0] == "regex":
             return ("re", callee[2], callee[1][1]) + tuple(to_term(x) for x in pos)
+        if isinstance(callee, tuple) and callee and callee[0] == "attr" and len(callee) == 3 and callee[2] == "__getitem__" and len(pos) == 1:
+            return ("getitem", callee[1], to_term(pos[0]))             # d.__getitem__(k) is d[k]
         if isinstance(callee, tuple) and callee and callee[0] == "attr" and len(callee) == 3 and callee[2] == "astype" and pos:
             return ("astype", to_term(pos[0]), callee[1])          # a cast of an array-valued term
         if isinstance(callee, tuple) and callee and callee[0] == "attr":
